@@ -33,6 +33,7 @@ var (
 	outDir   = flag.String("out", "", "output directory")
 	hookPath = flag.String("hook", "verif.local/sim/simhook", "import path of the hook package")
 	tags     = flag.String("tags", "verif", "build tags")
+	dense    = flag.String("dense", "", "comma-separated pkgpath:func list: a yield goes before every simple statement of these functions (preemption between plain memory accesses)")
 )
 
 type rw struct {
@@ -345,6 +346,21 @@ func (r *rw) checkStrayLocks(n ast.Node) {
 	})
 }
 
+// isDense: the current function is instrumented at statement granularity.
+func (r *rw) isDense() bool {
+	if *dense == "" {
+		return false
+	}
+	for _, d := range strings.Split(*dense, ",") {
+		if d == r.pkg.PkgPath+":"+r.fn {
+			return true
+		}
+	}
+	return false
+}
+
+func (r *rw) memYield() ast.Stmt { return &ast.ExprStmt{X: hook("Yield", r.site("mem"))} }
+
 func (r *rw) yield() ast.Stmt { return &ast.ExprStmt{X: hook("Yield", r.site("op"))} }
 
 func (r *rw) stmt(s ast.Stmt) []ast.Stmt {
@@ -489,12 +505,21 @@ func (r *rw) stmt(s ast.Stmt) []ast.Stmt {
 		if r.hasSync(v) {
 			return []ast.Stmt{r.yield(), v}
 		}
+		if r.isDense() {
+			return []ast.Stmt{r.memYield(), v}
+		}
 		return []ast.Stmt{v}
 	default:
 		r.funcLitsIn(s)
 		r.checkStrayLocks(s)
 		if r.hasSync(s) {
 			return []ast.Stmt{r.yield(), s}
+		}
+		switch s.(type) {
+		case *ast.AssignStmt, *ast.IncDecStmt:
+			if r.isDense() {
+				return []ast.Stmt{r.memYield(), s}
+			}
 		}
 		return []ast.Stmt{s}
 	}
